@@ -1,13 +1,26 @@
-(* Correctness of the program printer model Text/ProgPrint.v.
+(* Correctness of the program printer model Text/ProgPrint.v.  (The parts are in this order in the file.)
 
-   Part 1  generic facts about the verbose pre-order iterator (any tree with a node count)
+   Part 4  printing loses nothing: the token list of a well-formed tree parses back to that tree
+             type_roundtrip  pattern_roundtrip  expr_roundtrip
+             print_tokens_roundtrip  tokens_injective            (up to span ids: erase_program)
+             print_tokens_roundtrip_sp0  tokens_injective_sp0    (trees whose span ids are all 0)
+   Part 1  generic facts about the verbose pre-order iterator TyPrint.vpo_run on any tree with a node count
+             vev_machine  vtxt_unfold
    Part 2  the three Rust state machines print exactly what the structural printers print
              aty_print_machine_eq  pat_print_machine_eq  expr_print_machine_eq  print_program_machine_eq
-   Part 3  the structural printer is the token list plus whitespace
+   Part 3  the structural printer is the token list with spaces / newlines in between
              print_program_render  lay_program_tokens  lay_program_ws
-   Part 4  printing loses nothing: the token list of a well-formed tree parses back to that tree
-             type_roundtrip  pattern_roundtrip  expr_roundtrip  print_tokens_roundtrip  tokens_injective
-   Part 5  examples: expected texts are the output of the real printer (harness `svh ptree`, pprint) *)
+   Part 5  examples; the expected texts are the output of the real printer (harness `svh ptree`, pprint)
+
+   What [prog_wf] contains, and why (each conjunct is something Program::parse guarantees; see the
+   Examples need_* at the end for the trees outside it):
+     - a function body is a block                 (function = .. block_expression)
+     - the arms of a match are (Left, Right), (None, Some) or (false, true), in this order   (Match::parse)
+     - literal digit strings are non-empty and of their class            (dec_literal, bin_literal, hex_literal)
+     - AUInt k has k <= 8 (UIntType), array sizes fit usize, list / fold bounds are 2^k with 1 <= k <= 63
+       (NonZeroPow2Usize::new rejects 0 and 1; str::parse::<usize>)
+   Nothing is required of tuples (size 0, 1, n), PParen, nested blocks in statement position, blocks as
+   match arms or scrutinees, IModule: all of them are printed in a form that is read back. *)
 From Coq Require Import List Arith NArith Bool Lia.
 From Coq Require String Ascii.
 From Coq Require Import ZifyBool ZifyNat ZifyN.
@@ -1382,3 +1395,323 @@ Proof.
 Qed.
 Print Assumptions lay_program_tokens.
 Print Assumptions lay_program_ws.
+
+(** * Part 5: examples *)
+
+(* the fixed spellings *)
+Module Strings.
+  Import String.
+  Local Open Scope string_scope.
+  Example keywords_ok :
+    k_fn = bytes "fn" /\ k_type = bytes "type" /\ k_mod = bytes "mod" /\ k_const = bytes "const" /\
+    k_let = bytes "let" /\ k_match = bytes "match" /\ k_witness = bytes "witness" /\ k_param = bytes "param" /\
+    k_arrow = bytes "->" /\ k_fatarrow = bytes "=>" /\ k_gtinto = bytes ">::into" /\
+    k_Either = bytes "Either<" /\ k_Option = bytes "Option<" /\ k_bool = bytes "bool" /\ k_List = bytes "List<" /\
+    k_Left = bytes "Left(" /\ k_Right = bytes "Right(" /\ k_Some = bytes "Some(" /\ k_None = bytes "None" /\
+    k_false = bytes "false" /\ k_true = bytes "true" /\ k_listbang = bytes "list![" /\
+    k_unwrap_left = bytes "unwrap_left::<" /\ k_unwrap_right = bytes "unwrap_right::<" /\
+    k_is_none = bytes "is_none::<" /\ k_unwrap = bytes "unwrap" /\ k_assert = bytes "assert!" /\
+    k_panic = bytes "panic!" /\ k_dbg = bytes "dbg!" /\ k_fold = bytes "fold::<" /\
+    k_for_while = bytes "for_while::<" /\ k_jet = bytes "jet::" /\ k_witness_cc = bytes "witness::" /\
+    k_param_cc = bytes "param::" /\ k_0b = bytes "0b" /\ k_0x = bytes "0x".
+  Proof. vm_compute. repeat split. Qed.
+End Strings.
+
+(* Programs parsed and printed by the real implementation: [*_prog] is the parse tree dumped by the harness
+   (`svh ptree`, command ptree), [*_text] the bytes of its Display (command pprint).
+   Names are interned per role, so a function `f` and a variable `f` get different ids. *)
+Module Examples.
+(* fn main() { let (a, b): (u8, u8) = (1, 2); match Some(a) { None => {}, Some(x: u8) => assert!(jet::eq_8(x, b)), }; }
+ *)
+Definition ex0_ns (n : N) : list N :=
+  match n with
+  | 1 => [109;97;105;110]  (* main *)
+  | 2 => [97]  (* a *)
+  | 3 => [98]  (* b *)
+  | 4 => [120]  (* x *)
+  | 5 => [101;113;95;56]  (* eq_8 *)
+  | _ => []
+  end.
+Definition ex0_prog : pprogram :=
+  [(IFunction 1 [] None (PBlock [(Some ((PTup [(PId 2); (PId 3)]), (ATuple [(AUInt 3%nat); (AUInt 3%nat)])), (PTuple [(PLit (LDec [49])); (PLit (LDec [50]))])); (None, (PMatch (PSome (PVar 2)) MNone (PBlock [] None) (MSome 4 (AUInt 3%nat)) (PCall 1 PAssert [(PCall 2 (PJet 5) [(PVar 4); (PVar 3)])])))] None))].
+Definition ex0_text : list N :=
+  [102;110;32;109;97;105;110;40;41;32;123;10;108;101;116;32;40;97;44;32;98;41;58;32;40;117;56;44;32;117;56;41;32;61;32;40;49;44;32;50;41;59;10;32;32;32;32;109;97;116;99;104;32;83;111;109;101;40;97;41;123;10;78;111;110;101;32;61;62;32;123;10;125;10;44;10;83;111;109;101;40;120;58;32;117;56;41;32;61;62;32;97;115;115;101;114;116;33;40;106;101;116;58;58;101;113;95;56;40;120;44;32;98;41;41;44;10;125;59;10;125;10;10].
+(* fn main() {
+let (a, b): (u8, u8) = (1, 2);
+    match Some(a){
+None => {
+}
+,
+Some(x: u8) => assert!(jet::eq_8(x, b)),
+};
+}
+
+ *)
+Example ex0_print : print_program ex0_ns ex0_prog = ex0_text.
+Proof. vm_compute. reflexivity. Qed.
+Example ex0_machine : print_program_machine ex0_ns ex0_prog = ex0_text.
+Proof. vm_compute. reflexivity. Qed.
+Example ex0_wf : prog_wf ex0_prog = true.
+Proof. vm_compute. reflexivity. Qed.
+Example ex0_parse : parse_token_list (tokens_program ex0_prog) = Some (erase_program ex0_prog).
+Proof. vm_compute. reflexivity. Qed.
+
+
+(* type Foo = Either<u8, (u16, bool)>;
+mod witness { const A: u8 = 1; }
+fn f(x: u8, y: Foo) -> u8 { x }
+fn main() { let (a, b): (u8, u8) = (1, 2); let c: (u8,) = (a,); let d: () = (); let [p, _]: [u8; 2] = [0x0f, 0b101]; let l: List<u8, 4> = list![1, 2, 3]; match Some(a) { Some(x: u8) => assert!(jet::eq_8(x, b)), None => {}, }; let z: Option<u1> = None; let q: u8 = (f(a, Left(b))); let r: u8 = <u16>::into(witness::W); let s: u8 = unwrap_left::<u8>(param::P); let t: bool = is_none::<Pubkey>(z); dbg!(unwrap(Some(true))); { panic!() }; let u: u8 = fold::<f, 8>(l, 0); let v: Either<u8, u8> = for_while::<f>(a, b); match v { Left(i: u8) => i, Right(j: u8) => { j } }; let w: u8 = unwrap_right::<(u8, u8, u8)>(v); }
+ *)
+Definition ex1_ns (n : N) : list N :=
+  match n with
+  | 1 => [70;111;111]  (* Foo *)
+  | 2 => [120]  (* x *)
+  | 3 => [121]  (* y *)
+  | 4 => [102]  (* f *)
+  | 5 => [109;97;105;110]  (* main *)
+  | 6 => [97]  (* a *)
+  | 7 => [98]  (* b *)
+  | 8 => [99]  (* c *)
+  | 9 => [100]  (* d *)
+  | 10 => [112]  (* p *)
+  | 11 => [108]  (* l *)
+  | 12 => [101;113;95;56]  (* eq_8 *)
+  | 13 => [122]  (* z *)
+  | 14 => [113]  (* q *)
+  | 15 => [114]  (* r *)
+  | 16 => [87]  (* W *)
+  | 17 => [115]  (* s *)
+  | 18 => [80]  (* P *)
+  | 19 => [116]  (* t *)
+  | 20 => [80;117;98;107;101;121]  (* Pubkey *)
+  | 21 => [117]  (* u *)
+  | 22 => [118]  (* v *)
+  | 23 => [105]  (* i *)
+  | 24 => [106]  (* j *)
+  | 25 => [119]  (* w *)
+  | _ => []
+  end.
+Definition ex1_prog : pprogram :=
+  [(ITypeAlias 1 (AEither (AUInt 3%nat) (ATuple [(AUInt 4%nat); ABool]))); IModule;
+   (IFunction 4 [(2, (AUInt 3%nat)); (3, (AAlias 1))] (Some (AUInt 3%nat)) (PBlock [] (Some (PVar 2))));
+   (IFunction 5 [] None (PBlock [(Some ((PTup [(PId 6); (PId 7)]), (ATuple [(AUInt 3%nat); (AUInt 3%nat)])), (PTuple [(PLit (LDec [49])); (PLit (LDec [50]))])); (Some ((PId 8), (ATuple [(AUInt 3%nat)])), (PTuple [(PVar 6)])); (Some ((PId 9), (ATuple [])), (PTuple [])); (Some ((PArr [(PId 10); PIgn]), (AArray (AUInt 3%nat) 2%nat)), (PArray [(PLit (LHex [48;102])); (PLit (LBin [49;48;49]))])); (Some ((PId 11), (AList (AUInt 3%nat) 2%nat)), (PList [(PLit (LDec [49])); (PLit (LDec [50])); (PLit (LDec [51]))])); (None, (PMatch (PSome (PVar 6)) MNone (PBlock [] None) (MSome 2 (AUInt 3%nat)) (PCall 1 PAssert [(PCall 2 (PJet 12) [(PVar 2); (PVar 7)])]))); (Some ((PId 13), (AOption (AUInt 0%nat))), PNone); (Some ((PId 14), (AUInt 3%nat)), (PParen (PCall 3 (PCustom 4) [(PVar 6); (PLeft (PVar 7))]))); (Some ((PId 15), (AUInt 3%nat)), (PCall 4 (PCast (AUInt 4%nat)) [(PWitness 16)])); (Some ((PId 17), (AUInt 3%nat)), (PCall 5 (PUnwrapLeft (AUInt 3%nat)) [(PParam 18)])); (Some ((PId 19), ABool), (PCall 6 (PIsNone (ABuiltin 20)) [(PVar 13)])); (None, (PCall 7 PDebug [(PCall 8 PUnwrap [(PSome (PBool true))])])); (None, (PBlock [] (Some (PCall 9 PPanic [])))); (Some ((PId 21), (AUInt 3%nat)), (PCall 10 (PFold 4 3%nat) [(PVar 11); (PLit (LDec [48]))])); (Some ((PId 22), (AEither (AUInt 3%nat) (AUInt 3%nat))), (PCall 11 (PForWhile 4) [(PVar 6); (PVar 7)])); (None, (PMatch (PVar 22) (MLeft 23 (AUInt 3%nat)) (PVar 23) (MRight 24 (AUInt 3%nat)) (PBlock [] (Some (PVar 24))))); (Some ((PId 25), (AUInt 3%nat)), (PCall 12 (PUnwrapRight (ATuple [(AUInt 3%nat); (AUInt 3%nat); (AUInt 3%nat)])) [(PVar 22)]))] None))].
+Definition ex1_text : list N :=
+  [116;121;112;101;32;70;111;111;32;61;32;69;105;116;104;101;114;60;117;56;44;40;117;49;54;44;32;98;111;111;108;41;62;59;10;109;111;100;32;119;105;116;110;101;115;115;32;123;125;10;102;110;32;102;40;120;58;32;117;56;44;32;121;58;32;70;111;111;41;32;45;62;32;117;56;32;123;10;120;125;10;10;102;110;32;109;97;105;110;40;41;32;123;10;108;101;116;32;40;97;44;32;98;41;58;32;40;117;56;44;32;117;56;41;32;61;32;40;49;44;32;50;41;59;10;32;32;32;32;108;101;116;32;99;58;32;40;117;56;44;41;32;61;32;40;97;44;32;41;59;10;32;32;32;32;108;101;116;32;100;58;32;40;41;32;61;32;40;41;59;10;32;32;32;32;108;101;116;32;91;112;44;32;95;93;58;32;91;117;56;59;32;50;93;32;61;32;91;48;120;48;102;44;32;48;98;49;48;49;93;59;10;32;32;32;32;108;101;116;32;108;58;32;76;105;115;116;60;117;56;44;32;52;62;32;61;32;108;105;115;116;33;91;49;44;32;50;44;32;51;93;59;10;32;32;32;32;109;97;116;99;104;32;83;111;109;101;40;97;41;123;10;78;111;110;101;32;61;62;32;123;10;125;10;44;10;83;111;109;101;40;120;58;32;117;56;41;32;61;62;32;97;115;115;101;114;116;33;40;106;101;116;58;58;101;113;95;56;40;120;44;32;98;41;41;44;10;125;59;10;32;32;32;32;108;101;116;32;122;58;32;79;112;116;105;111;110;60;117;49;62;32;61;32;78;111;110;101;59;10;32;32;32;32;108;101;116;32;113;58;32;117;56;32;61;32;40;102;40;97;44;32;76;101;102;116;40;98;41;41;41;59;10;32;32;32;32;108;101;116;32;114;58;32;117;56;32;61;32;60;117;49;54;62;58;58;105;110;116;111;40;119;105;116;110;101;115;115;58;58;87;41;59;10;32;32;32;32;108;101;116;32;115;58;32;117;56;32;61;32;117;110;119;114;97;112;95;108;101;102;116;58;58;60;117;56;62;40;112;97;114;97;109;58;58;80;41;59;10;32;32;32;32;108;101;116;32;116;58;32;98;111;111;108;32;61;32;105;115;95;110;111;110;101;58;58;60;80;117;98;107;101;121;62;40;122;41;59;10;32;32;32;32;100;98;103;33;40;117;110;119;114;97;112;40;83;111;109;101;40;116;114;117;101;41;41;41;59;10;32;32;32;32;123;10;112;97;110;105;99;33;40;41;125;10;59;10;32;32;32;32;108;101;116;32;117;58;32;117;56;32;61;32;102;111;108;100;58;58;60;102;44;32;56;62;40;108;44;32;48;41;59;10;32;32;32;32;108;101;116;32;118;58;32;69;105;116;104;101;114;60;117;56;44;117;56;62;32;61;32;102;111;114;95;119;104;105;108;101;58;58;60;102;62;40;97;44;32;98;41;59;10;32;32;32;32;109;97;116;99;104;32;118;123;10;76;101;102;116;40;105;58;32;117;56;41;32;61;62;32;105;44;10;82;105;103;104;116;40;106;58;32;117;56;41;32;61;62;32;123;10;106;125;10;44;10;125;59;10;32;32;32;32;108;101;116;32;119;58;32;117;56;32;61;32;117;110;119;114;97;112;95;114;105;103;104;116;58;58;60;40;117;56;44;32;117;56;44;32;117;56;41;62;40;118;41;59;10;125;10;10].
+(* type Foo = Either<u8,(u16, bool)>;
+mod witness {}
+fn f(x: u8, y: Foo) -> u8 {
+x}
+
+fn main() {
+let (a, b): (u8, u8) = (1, 2);
+    let c: (u8,) = (a, );
+    let d: () = ();
+    let [p, _]: [u8; 2] = [0x0f, 0b101];
+    let l: List<u8, 4> = list![1, 2, 3];
+    match Some(a){
+None => {
+}
+,
+Some(x: u8) => assert!(jet::eq_8(x, b)),
+};
+    let z: Option<u1> = None;
+    let q: u8 = (f(a, Left(b)));
+    let r: u8 = <u16>::into(witness::W);
+    let s: u8 = unwrap_left::<u8>(param::P);
+    let t: bool = is_none::<Pubkey>(z);
+    dbg!(unwrap(Some(true)));
+    {
+panic!()}
+;
+    let u: u8 = fold::<f, 8>(l, 0);
+    let v: Either<u8,u8> = for_while::<f>(a, b);
+    match v{
+Left(i: u8) => i,
+Right(j: u8) => {
+j}
+,
+};
+    let w: u8 = unwrap_right::<(u8, u8, u8)>(v);
+}
+
+ *)
+Example ex1_print : print_program ex1_ns ex1_prog = ex1_text.
+Proof. vm_compute. reflexivity. Qed.
+Example ex1_machine : print_program_machine ex1_ns ex1_prog = ex1_text.
+Proof. vm_compute. reflexivity. Qed.
+Example ex1_wf : prog_wf ex1_prog = true.
+Proof. vm_compute. reflexivity. Qed.
+Example ex1_parse : parse_token_list (tokens_program ex1_prog) = Some (erase_program ex1_prog).
+Proof. vm_compute. reflexivity. Qed.
+
+
+(* mod param { const X: u8 = 1; const Y: (u8, bool) = (2, true); }
+type A = (); type B = (A,); type C = ((u1, u2), [List<Option<bool>, 2>; 0], Either<(),Either<u256,u128>>,);
+fn g(a: A) -> B { (a,) }
+fn h() { }
+fn main() {
+  /* comment */
+  let (x,): (u8,) = (1_0,);
+  let ((a, _), [], [b,], ()): ((u8, u8), [u8; 0], [u8; 1], ()) = ((1, 2), [], [3,], (),);
+  let c: bool = match true { true => false, false => { true }, };
+  let d: u8 = match { Left(c) } { Right(r: u8) => { let q: u8 = r; q } Left(l: bool) => match l { false => 0, true => 1, }, };
+  {}; {{}}; { {}; };
+  let e: u8 = ((((1))));
+  let f: List<u8, 2> = list![];
+  let i: List<u8, 2> = list![1,];
+  let j: u16 = 0xAbCd;
+  let k: (u8, u8, u8) = (1, 2, 3);
+  match None { Some(v: u8) => {}, None => {} };
+  h();
+  g(())
+}
+ *)
+Definition ex2_ns (n : N) : list N :=
+  match n with
+  | 1 => [65]  (* A *)
+  | 2 => [66]  (* B *)
+  | 3 => [67]  (* C *)
+  | 4 => [97]  (* a *)
+  | 5 => [103]  (* g *)
+  | 6 => [104]  (* h *)
+  | 7 => [109;97;105;110]  (* main *)
+  | 8 => [120]  (* x *)
+  | 9 => [98]  (* b *)
+  | 10 => [99]  (* c *)
+  | 11 => [100]  (* d *)
+  | 12 => [108]  (* l *)
+  | 13 => [114]  (* r *)
+  | 14 => [113]  (* q *)
+  | 15 => [101]  (* e *)
+  | 16 => [102]  (* f *)
+  | 17 => [105]  (* i *)
+  | 18 => [106]  (* j *)
+  | 19 => [107]  (* k *)
+  | 20 => [118]  (* v *)
+  | _ => []
+  end.
+Definition ex2_prog : pprogram :=
+  [IModule;
+   (ITypeAlias 1 (ATuple []));
+   (ITypeAlias 2 (ATuple [(AAlias 1)]));
+   (ITypeAlias 3 (ATuple [(ATuple [(AUInt 0%nat); (AUInt 1%nat)]); (AArray (AList (AOption ABool) 1%nat) 0%nat); (AEither (ATuple []) (AEither (AUInt 8%nat) (AUInt 7%nat)))]));
+   (IFunction 5 [(4, (AAlias 1))] (Some (AAlias 2)) (PBlock [] (Some (PTuple [(PVar 4)]))));
+   (IFunction 6 [] None (PBlock [] None));
+   (IFunction 7 [] None (PBlock [(Some ((PTup [(PId 8)]), (ATuple [(AUInt 3%nat)])), (PTuple [(PLit (LDec [49;48]))])); (Some ((PTup [(PTup [(PId 4); PIgn]); (PArr []); (PArr [(PId 9)]); (PTup [])]), (ATuple [(ATuple [(AUInt 3%nat); (AUInt 3%nat)]); (AArray (AUInt 3%nat) 0%nat); (AArray (AUInt 3%nat) 1%nat); (ATuple [])])), (PTuple [(PTuple [(PLit (LDec [49])); (PLit (LDec [50]))]); (PArray []); (PArray [(PLit (LDec [51]))]); (PTuple [])])); (Some ((PId 10), ABool), (PMatch (PBool true) MFalse (PBlock [] (Some (PBool true))) MTrue (PBool false))); (Some ((PId 11), (AUInt 3%nat)), (PMatch (PBlock [] (Some (PLeft (PVar 10)))) (MLeft 12 ABool) (PMatch (PVar 12) MFalse (PLit (LDec [48])) MTrue (PLit (LDec [49]))) (MRight 13 (AUInt 3%nat)) (PBlock [(Some ((PId 14), (AUInt 3%nat)), (PVar 13))] (Some (PVar 14))))); (None, (PBlock [] None)); (None, (PBlock [] (Some (PBlock [] None)))); (None, (PBlock [(None, (PBlock [] None))] None)); (Some ((PId 15), (AUInt 3%nat)), (PParen (PParen (PParen (PParen (PLit (LDec [49]))))))); (Some ((PId 16), (AList (AUInt 3%nat) 1%nat)), (PList [])); (Some ((PId 17), (AList (AUInt 3%nat) 1%nat)), (PList [(PLit (LDec [49]))])); (Some ((PId 18), (AUInt 4%nat)), (PLit (LHex [65;98;67;100]))); (Some ((PId 19), (ATuple [(AUInt 3%nat); (AUInt 3%nat); (AUInt 3%nat)])), (PTuple [(PLit (LDec [49])); (PLit (LDec [50])); (PLit (LDec [51]))])); (None, (PMatch PNone MNone (PBlock [] None) (MSome 20 (AUInt 3%nat)) (PBlock [] None))); (None, (PCall 1 (PCustom 6) []))] (Some (PCall 2 (PCustom 5) [(PTuple [])]))))].
+Definition ex2_text : list N :=
+  [109;111;100;32;119;105;116;110;101;115;115;32;123;125;10;116;121;112;101;32;65;32;61;32;40;41;59;10;116;121;112;101;32;66;32;61;32;40;65;44;41;59;10;116;121;112;101;32;67;32;61;32;40;40;117;49;44;32;117;50;41;44;32;91;76;105;115;116;60;79;112;116;105;111;110;60;98;111;111;108;62;44;32;50;62;59;32;48;93;44;32;69;105;116;104;101;114;60;40;41;44;69;105;116;104;101;114;60;117;50;53;54;44;117;49;50;56;62;62;41;59;10;102;110;32;103;40;97;58;32;65;41;32;45;62;32;66;32;123;10;40;97;44;32;41;125;10;10;102;110;32;104;40;41;32;123;10;125;10;10;102;110;32;109;97;105;110;40;41;32;123;10;108;101;116;32;40;120;44;32;41;58;32;40;117;56;44;41;32;61;32;40;49;48;44;32;41;59;10;32;32;32;32;108;101;116;32;40;40;97;44;32;95;41;44;32;91;93;44;32;91;98;93;44;32;40;41;41;58;32;40;40;117;56;44;32;117;56;41;44;32;91;117;56;59;32;48;93;44;32;91;117;56;59;32;49;93;44;32;40;41;41;32;61;32;40;40;49;44;32;50;41;44;32;91;93;44;32;91;51;93;44;32;40;41;41;59;10;32;32;32;32;108;101;116;32;99;58;32;98;111;111;108;32;61;32;109;97;116;99;104;32;116;114;117;101;123;10;102;97;108;115;101;32;61;62;32;123;10;116;114;117;101;125;10;44;10;116;114;117;101;32;61;62;32;102;97;108;115;101;44;10;125;59;10;32;32;32;32;108;101;116;32;100;58;32;117;56;32;61;32;109;97;116;99;104;32;123;10;76;101;102;116;40;99;41;125;10;123;10;76;101;102;116;40;108;58;32;98;111;111;108;41;32;61;62;32;109;97;116;99;104;32;108;123;10;102;97;108;115;101;32;61;62;32;48;44;10;116;114;117;101;32;61;62;32;49;44;10;125;44;10;82;105;103;104;116;40;114;58;32;117;56;41;32;61;62;32;123;10;108;101;116;32;113;58;32;117;56;32;61;32;114;59;10;32;32;32;32;113;125;10;44;10;125;59;10;32;32;32;32;123;10;125;10;59;10;32;32;32;32;123;10;123;10;125;10;125;10;59;10;32;32;32;32;123;10;123;10;125;10;59;10;125;10;59;10;32;32;32;32;108;101;116;32;101;58;32;117;56;32;61;32;40;40;40;40;49;41;41;41;41;59;10;32;32;32;32;108;101;116;32;102;58;32;76;105;115;116;60;117;56;44;32;50;62;32;61;32;108;105;115;116;33;91;93;59;10;32;32;32;32;108;101;116;32;105;58;32;76;105;115;116;60;117;56;44;32;50;62;32;61;32;108;105;115;116;33;91;49;93;59;10;32;32;32;32;108;101;116;32;106;58;32;117;49;54;32;61;32;48;120;65;98;67;100;59;10;32;32;32;32;108;101;116;32;107;58;32;40;117;56;44;32;117;56;44;32;117;56;41;32;61;32;40;49;44;32;50;44;32;51;41;59;10;32;32;32;32;109;97;116;99;104;32;78;111;110;101;123;10;78;111;110;101;32;61;62;32;123;10;125;10;44;10;83;111;109;101;40;118;58;32;117;56;41;32;61;62;32;123;10;125;10;44;10;125;59;10;32;32;32;32;104;40;41;59;10;32;32;32;32;103;40;40;41;41;125;10;10].
+(* mod witness {}
+type A = ();
+type B = (A,);
+type C = ((u1, u2), [List<Option<bool>, 2>; 0], Either<(),Either<u256,u128>>);
+fn g(a: A) -> B {
+(a, )}
+
+fn h() {
+}
+
+fn main() {
+let (x, ): (u8,) = (10, );
+    let ((a, _), [], [b], ()): ((u8, u8), [u8; 0], [u8; 1], ()) = ((1, 2), [], [3], ());
+    let c: bool = match true{
+false => {
+true}
+,
+true => false,
+};
+    let d: u8 = match {
+Left(c)}
+{
+Left(l: bool) => match l{
+false => 0,
+true => 1,
+},
+Right(r: u8) => {
+let q: u8 = r;
+    q}
+,
+};
+    {
+}
+;
+    {
+{
+}
+}
+;
+    {
+{
+}
+;
+}
+;
+    let e: u8 = ((((1))));
+    let f: List<u8, 2> = list![];
+    let i: List<u8, 2> = list![1];
+    let j: u16 = 0xAbCd;
+    let k: (u8, u8, u8) = (1, 2, 3);
+    match None{
+None => {
+}
+,
+Some(v: u8) => {
+}
+,
+};
+    h();
+    g(())}
+
+ *)
+Example ex2_print : print_program ex2_ns ex2_prog = ex2_text.
+Proof. vm_compute. reflexivity. Qed.
+Example ex2_machine : print_program_machine ex2_ns ex2_prog = ex2_text.
+Proof. vm_compute. reflexivity. Qed.
+Example ex2_wf : prog_wf ex2_prog = true.
+Proof. vm_compute. reflexivity. Qed.
+Example ex2_parse : parse_token_list (tokens_program ex2_prog) = Some (erase_program ex2_prog).
+Proof. vm_compute. reflexivity. Qed.
+
+
+(* the parser also reads what the printer never writes: the arms in the other order (stored normalised),
+   a block arm without comma, trailing commas in arrays, module contents (dropped) *)
+Example other_order :
+  parse_token_list
+    [TMod; TModName false; TLBrace; TConst; TIdent 9; TColon; TBoolTy; TEq; TTrue; TSemi; TRBrace;
+     TFn; TIdent 1; TLParen; TRParen; TLBrace;
+       TMatch; TIdent 2; TLBrace; TTrue; TFatArrow; TLBrace; TRBrace; TFalse; TFatArrow; TLBrack; TDec [49]; TComma; TRBrack; TComma; TRBrace;
+     TRBrace]
+  = Some [IModule; IFunction 1 [] None (PBlock [] (Some (PMatch (PVar 2) MFalse (PArray [PLit (LDec [49])]) MTrue (PBlock [] None))))].
+Proof. vm_compute. reflexivity. Qed.
+
+(* what the parser rejects *)
+Example reject_paren_type : parse_ty 9 [TLParen; TBoolTy; TRParen] = None.
+Proof. reflexivity. Qed.
+Example reject_bound_one : parse_ty 9 [TListLt; TBoolTy; TComma; TNum 1; TGt] = None.
+Proof. reflexivity. Qed.
+Example reject_bound_not_pow2 : parse_ty 9 [TListLt; TBoolTy; TComma; TNum 6; TGt] = None.
+Proof. reflexivity. Qed.
+Example reject_arms : parse_expr 20 [TMatch; TIdent 2; TLBrace; TTrue; TFatArrow; TNone; TComma; TNone; TFatArrow; TNone; TComma; TRBrace] = None.
+Proof. vm_compute. reflexivity. Qed.
+Example reject_args_trailing_comma : parse_expr 20 [TIdent 1; TLParen; TNone; TComma; TRParen] = None.
+Proof. vm_compute. reflexivity. Qed.
+
+(* every conjunct of [prog_wf] is needed: trees outside it (which Program::parse never builds) do not
+   come back from their own tokens *)
+Example need_block_body :
+  parse_token_list (tokens_program [IFunction 1 [] None (PVar 2)]) = None.
+Proof. vm_compute. reflexivity. Qed.
+Example need_digits :                                      (* prints as the empty string *)
+  parse_token_list (tokens_program [IFunction 1 [] None (PBlock [] (Some (PLit (LDec []))))]) = None
+  /\ print_expr (fun _ => []) (PLit (LDec [])) = [].
+Proof. vm_compute. split; reflexivity. Qed.
+Example need_arm_order :                                   (* re-read with the arms swapped *)
+  parse_token_list (tokens_program [IFunction 1 [] None (PBlock [] (Some (PMatch (PVar 2) MTrue PNone MFalse (PVar 3))))])
+  = Some [IFunction 1 [] None (PBlock [] (Some (PMatch (PVar 2) MFalse (PVar 3) MTrue PNone)))].
+Proof. vm_compute. reflexivity. Qed.
+Example need_arm_pair :
+  parse_token_list (tokens_program [IFunction 1 [] None (PBlock [] (Some (PMatch (PVar 2) MTrue PNone MNone (PVar 3))))])
+  = None.
+Proof. vm_compute. reflexivity. Qed.
+Example need_bound : parse_ty 9 (tokens_aty (AList ABool 0)) = None /\ parse_ty 9 (tokens_aty (AUInt 9)) = None.
+Proof. vm_compute. split; reflexivity. Qed.
+End Examples.
